@@ -18,11 +18,12 @@ emit() { printf '%s\n' "$1" >> "$OUT"; }
 # ---- valgrind memcheck on the plain (no ledger) dev build -------------------------------------------------
 (cd "$H" && cargo build --offline --target-dir "$TNL" --no-default-features >"$WORK/build.log" 2>&1) || { cat "$WORK/build.log" | tail -20 >&2; exit 3; }
 LIM=$([ "$TIER" = thorough ] && echo 400 || echo 48)
+MIRI_LIMIT=$([ "$ID" = C08 ] && echo 128 || echo 32)
 NS=8
 pids=()
 for s in $(seq 0 $((NS-1))); do
-  CVH_LIMIT=$LIM CVH_STACK_MB=64 valgrind --leak-check=full --show-leak-kinds=definite,indirect --errors-for-leak-kinds=definite,indirect \
-     --error-exitcode=0 --log-file="$WORK/vg.$s.log" "$TNL/debug/cvh" worker "$ID" quick "$SEED" "$s" "$NS" "$WORK" --label "${ID}vg" >/dev/null 2>"$WORK/vg.$s.err" &
+  valgrind --leak-check=full --show-leak-kinds=definite,indirect --errors-for-leak-kinds=definite,indirect \
+     --error-exitcode=0 --log-file="$WORK/vg.$s.log" "$TNL/debug/cvh" worker "$ID" quick "$SEED" "$s" "$NS" "$WORK" --label "${ID}vg" --limit $LIM --stack-mb 64 >/dev/null 2>"$WORK/vg.$s.err" &
   pids+=($!)
 done
 for p in "${pids[@]}"; do wait "$p" || true; done
@@ -31,11 +32,11 @@ python3 "$ROOT/scripts/san_report.py" valgrind "$ID" "$WORK" "$NS" >> "$OUT" || 
 if [ "$TIER" = thorough ]; then
   # ---- Miri: undefined behaviour (e.g. writes through shared references / raw pointers) and leaks at exit ---
   MT="$H/target-miri"
-  (cd "$H" && MIRIFLAGS="-Zmiri-disable-isolation" CVH_LIMIT=0 cargo +nightly miri run --offline --target-dir "$MT" --no-default-features -- list >"$WORK/miri.build.log" 2>&1) || { tail -20 "$WORK/miri.build.log" >&2; exit 3; }
+  (cd "$H" && MIRIFLAGS="-Zmiri-disable-isolation" cargo +nightly miri run --offline --target-dir "$MT" --no-default-features -- list >"$WORK/miri.build.log" 2>&1) || { tail -20 "$WORK/miri.build.log" >&2; exit 3; }
   NS=16; pids=()
   for s in $(seq 0 $((NS-1))); do
-    (cd "$H" && MIRIFLAGS="-Zmiri-disable-isolation -Zmiri-env-forward=CVH_LIMIT -Zmiri-env-forward=CVH_STACK_MB" CVH_LIMIT=64 CVH_STACK_MB=16 \
-       cargo +nightly miri run --offline --target-dir "$MT" --no-default-features -- worker "$ID" quick "$SEED" "$s" "$NS" "$WORK" --label "${ID}miri" >"$WORK/miri.$s.log" 2>&1; echo "exit=$?" >> "$WORK/miri.$s.log") &
+    (cd "$H" && MIRIFLAGS="-Zmiri-disable-isolation" \
+       cargo +nightly miri run --offline --target-dir "$MT" --no-default-features -- worker "$ID" quick "$SEED" "$s" "$NS" "$WORK" --label "${ID}miri" --limit $MIRI_LIMIT --stack-mb 16 >"$WORK/miri.$s.log" 2>&1; echo "exit=$?" >> "$WORK/miri.$s.log") &
     pids+=($!)
   done
   for p in "${pids[@]}"; do wait "$p" || true; done
@@ -46,8 +47,8 @@ if [ "$TIER" = thorough ]; then
   (cd "$H" && RUSTFLAGS="-Zsanitizer=address -Cforce-frame-pointers=yes" cargo +nightly build --offline --target x86_64-unknown-linux-gnu --target-dir "$AT" --no-default-features >"$WORK/asan.build.log" 2>&1) || { tail -20 "$WORK/asan.build.log" >&2; exit 3; }
   NS=16; pids=()
   for s in $(seq 0 $((NS-1))); do
-    (CVH_LIMIT=4000 CVH_STACK_MB=256 ASAN_OPTIONS="detect_leaks=1:halt_on_error=1:abort_on_error=0:exitcode=23" \
-       "$AT/x86_64-unknown-linux-gnu/debug/cvh" worker "$ID" quick "$SEED" "$s" "$NS" "$WORK" --label "${ID}asan" >"$WORK/asan.$s.log" 2>&1; echo "exit=$?" >> "$WORK/asan.$s.log") &
+    (ASAN_OPTIONS="detect_leaks=1:halt_on_error=1:abort_on_error=0:exitcode=23" \
+       "$AT/x86_64-unknown-linux-gnu/debug/cvh" worker "$ID" quick "$SEED" "$s" "$NS" "$WORK" --label "${ID}asan" --limit 4000 --stack-mb 256 >"$WORK/asan.$s.log" 2>&1; echo "exit=$?" >> "$WORK/asan.$s.log") &
     pids+=($!)
   done
   for p in "${pids[@]}"; do wait "$p" || true; done
